@@ -365,6 +365,16 @@ class InnerTxnBuilder:
                 f"Expected {len(arg_type_specs)} arguments, got {len(args)}"
             )
 
+        # ARC-4 passes at most 15 arguments besides the selector; a callee expects any further
+        # ones packed into a tuple as the 15th, which this builder does not produce
+        num_app_args = len(
+            [ts for ts in arg_type_specs if ts not in abi.TransactionTypeSpecs]
+        )
+        if num_app_args > 15:
+            raise TealInputError(
+                f"MethodCall supports at most 15 non-transaction arguments, got {num_app_args}"
+            )
+
         # Start app args with the method selector
         app_args: list[Expr] = [MethodSignature(method_signature)]
 
